@@ -168,11 +168,17 @@ func dateFromGoDay(day Time.Weekday) int {
 
 // newDateTime returns the epoch of date contained in argumentList for location.
 func newDateTime(argumentList []Value, location *Time.Location) float64 {
+	// 15.9.3.1 / 15.9.4.3: ToNumber of every field argument, in order, before
+	// any of them is looked at.
+	var numberList []float64
+	for index := 0; len(argumentList) >= 2 && index < len(argumentList) && index < 7; index++ {
+		numberList = append(numberList, argumentList[index].float64())
+	}
 	pick := func(index int, default_ float64) (float64, bool) {
 		if index >= len(argumentList) {
 			return default_, false
 		}
-		value := argumentList[index].float64()
+		value := numberList[index]
 		if math.IsNaN(value) || math.IsInf(value, 0) {
 			return 0, true
 		}
